@@ -11,6 +11,7 @@ from .lie_common import (lib_call, mrp_product_ok, euler_ok, group_corpus, run_c
                          configs_for_shard)
 
 SHARDS = {"quick": 14, "thorough": 16}
+REQUIRED_REACH = ['SO3QuatLieGroup.product', 'SO3MrpLieGroup.product', 'SO3LieGroup.product', 'SE3LieGroup.product', 'SE23LieGroup.product', 'SE2LieGroup.product', 'LieGroupDirectProduct.product', 'SO3QuatLieGroup.from_Matrix', 'SO3EulerLieGroup.from_Matrix', 'SE3LieGroup.inverse', 'SO3DcmLieGroup.identity']
 RULE = ("per group configuration: random elements from axis-angle by the oracle's formulas (angles 0..pi "
         "incl. denormal/near-pi/exact 0, both quaternion signs, shadow MRPs, Euler outside the gimbal band, "
         "translations log-uniform 1e-6..1e3) + boundary corpus; a case is non-trivial when none of its "
